@@ -378,6 +378,9 @@ func runC14(c *Ctx) {
 			"a goroutine of a call blocks on a channel that is shared by all calls in "+bad+": goroutines that hold a slot while they wait for others that need one stop for ever when calls overlap")
 	}
 
+	// ---- R14.12: results of goroutines are not collected in completion order ------------
+	checkCompletionOrder(c, p)
+
 	// ---- R14.6: a known value is complete before it is published ----------------------
 	checkPublishAfterInit(c, p, fns, kvName, setField)
 
@@ -1067,4 +1070,131 @@ func sortedKeys(m map[string]bool) []string {
 	}
 	sort.Strings(ks)
 	return ks
+}
+
+// checkCompletionOrder: R14.12. What spawned goroutines hand back through a channel arrives in the order in which they finish.
+// A value received from such a channel may go into something that has an order of its own - the priority queue, a slice
+// that is sorted afterwards - but not into a result slot chosen by the order of arrival (`out[i] = <-done`, an append to a
+// list that is returned as it is): the answer then differs from call to call. Signals (errors, booleans, empty structs)
+// carry no result and are exempt. Examined: the v1 string classifier and its search set package.
+func checkCompletionOrder(c *Ctx, p *core.Prog) {
+	var fns []*ssa.Function
+	for _, pk := range []string{scPkg, ssPkg} {
+		fns = append(fns, pkgFuncs(p, pk)...)
+	}
+	region := eng.ConcurrentRegion(fns)
+	// channel types that goroutines send results on
+	sent := map[string]bool{}
+	for f := range region {
+		for _, b := range f.Blocks {
+			for _, in := range b.Instrs {
+				if sd, ok := in.(*ssa.Send); ok {
+					sent[types.TypeString(sd.Chan.Type().Underlying().(*types.Chan).Elem(), nil)] = true
+				}
+			}
+		}
+	}
+	isSignal := func(t types.Type) bool {
+		if t.String() == "error" || isBool(t) {
+			return true
+		}
+		if st, ok := t.Underlying().(*types.Struct); ok && st.NumFields() == 0 {
+			return true
+		}
+		return false
+	}
+	nRecv := 0
+	for _, f := range fns {
+		var sorted []ssa.Value // slices handed to a sort in this function
+		for _, call := range core.CallsIn(f) {
+			n := core.StaticCalleeName(call.Common())
+			if n == "sort.Sort" || n == "sort.Stable" || n == "sort.Slice" || n == "sort.SliceStable" {
+				a := call.Common().Args[0]
+				if mi, ok := a.(*ssa.MakeInterface); ok {
+					a = mi.X
+				}
+				sorted = append(sorted, a)
+			}
+		}
+		for _, b := range f.Blocks {
+			for _, in := range b.Instrs {
+				var got ssa.Value
+				switch x := in.(type) {
+				case *ssa.UnOp:
+					if x.Op == token.ARROW {
+						got = x
+					}
+				case *ssa.Next:
+					if rg, ok := x.Iter.(*ssa.Range); ok {
+						if _, isCh := rg.X.Type().Underlying().(*types.Chan); isCh {
+							got = x
+						}
+					}
+				}
+				if got == nil {
+					continue
+				}
+				var et types.Type
+				switch x := got.(type) {
+				case *ssa.UnOp:
+					et = x.X.Type().Underlying().(*types.Chan).Elem()
+					if x.CommaOk {
+						et = x.Type().(*types.Tuple).At(0).Type()
+					}
+				case *ssa.Next:
+					et = x.Iter.(*ssa.Range).X.Type().Underlying().(*types.Chan).Elem()
+				}
+				if isSignal(et) || !sent[types.TypeString(et, nil)] {
+					continue
+				}
+				nRecv++
+				// where does the received value go?
+				bad := ""
+				seen := map[ssa.Value]bool{}
+				var walk func(v ssa.Value)
+				walk = func(v ssa.Value) {
+					if seen[v] || v.Referrers() == nil {
+						return
+					}
+					seen[v] = true
+					for _, r := range *v.Referrers() {
+						switch u := r.(type) {
+						case *ssa.Extract:
+							walk(u)
+						case *ssa.Phi:
+							walk(u)
+						case *ssa.ChangeType:
+							walk(u)
+						case *ssa.MakeInterface:
+							walk(u)
+						case *ssa.Store:
+							if u.Val == v {
+								if _, isIdx := u.Addr.(*ssa.IndexAddr); isIdx {
+									bad = "it is stored into a slot of a slice (" + p.Pos(u.Pos()) + ")"
+								}
+							}
+						case *ssa.Call:
+							if bi, ok := u.Call.Value.(*ssa.Builtin); ok && bi.Name() == "append" {
+								fam := sliceFamily(u)
+								okSorted := false
+								for _, sv := range sorted {
+									if fam[sv] {
+										okSorted = true
+									}
+								}
+								if !okSorted {
+									bad = "it is appended to a list that is not sorted afterwards (" + p.Pos(u.Pos()) + ")"
+								}
+							}
+						}
+					}
+				}
+				walk(got)
+				c.R.Check(bad == "", "R14.12", core.ShortFn(f)+": what goroutines send back is not kept in the order of arrival", p.Pos(in.Pos()),
+					"the received value goes into the queue or a list that is sorted", "a value received from a channel that goroutines send their results on keeps its place in the order of arrival: "+bad+"; goroutines finish in a different order from call to call, and so does the result")
+			}
+		}
+	}
+	c.R.Count("R14.12:receives of goroutine results", nRecv)
+	c.R.OK("R14.12", "v1: receives of goroutine results were looked for", scPkg, fmt.Sprintf("%d found", nRecv))
 }
